@@ -694,11 +694,16 @@ package fsutil
 //@   ensures first_member: !fi.IsDir() && seenFiles != nil && !old(specLinked(fi, seenFiles)) ==> stat.Linkname == old(stat.Linkname) && haskey(seenFiles, asptr(fi.Sys(), syscall.Stat_t).Ino) && seenFiles[asptr(fi.Sys(), syscall.Stat_t).Ino] == path && (forall k uint64 :: k != asptr(fi.Sys(), syscall.Stat_t).Ino ==> haskey(seenFiles, k) == old(haskey(seenFiles, k)) && seenFiles[k] == old(seenFiles[k]))
 //@   ensures no_map: seenFiles == nil ==> stat.Linkname == old(stat.Linkname)
 
+// the attributes recorded for an entry are those of the entry itself, whatever its type: its
+// attribute names are listed (without following a link) exactly once, under the path given
 //@ func loadXattr
 //@   property C09
 //@   requires stat != nil
 //@   modifies stat.Xattrs
 //@   effects LListxattr LGetxattr
+//@   ensures always_listed: cnt(LListxattr) == old(cnt(LListxattr)) + 1 && arg(LListxattr, 0) == origpath
+//@   ensures values_of_this_entry: cnt(LGetxattr) > old(cnt(LGetxattr)) ==> arg(LGetxattr, 0) == origpath
+//@   loop 0 invariant same_entry: cnt(LGetxattr) > old(cnt(LGetxattr)) ==> arg(LGetxattr, 0) == origpath
 
 // the stat recorded for an entry: path as given, the lstat mode without the
 // socket bit, nanosecond mtime, size for non-directories, link target for symlinks
@@ -715,6 +720,7 @@ package fsutil
 //@   ensures owner: result1 == nil ==> result0.Uid == asptr(fi.Sys(), syscall.Stat_t).Uid && result0.Gid == asptr(fi.Sys(), syscall.Stat_t).Gid
 //@   ensures symlink: result1 == nil && !fi.IsDir() && fi.Mode() & os.ModeSymlink != 0 ==> cnt(Readlink) == old(cnt(Readlink)) + 1 && arg(Readlink, 0) == path
 //@   ensures nolink: fi.IsDir() || fi.Mode() & os.ModeSymlink == 0 ==> cnt(Readlink) == old(cnt(Readlink))
+//@   ensures xattrs_of_the_entry: result1 == nil ==> cnt(LListxattr) == old(cnt(LListxattr)) + 1 && arg(LListxattr, 0) == path
 
 // every walk starts with its own empty inode map: the first name of an inode *in this walk* is
 // the file, whatever an earlier walk of the same view has seen
@@ -859,7 +865,7 @@ package fsutil
 //@ func NewFilterFS
 //@   property C10 C11 C18
 //@   modifies array string, array os.DirEntry, maps string struct{}
-//@   effects FollowedToRoot
+//@   effects FollowedToRoot GlobMatch GlobMatchRes EntryResolved
 //@   ensures no_options: opt == nil ==> result0 == fs && result1 == nil
 //@   ensures wraps: opt != nil && result1 == nil ==> isptr(result0, filterFS) && asptr(result0, filterFS) != nil && fresh(asptr(result0, filterFS)) && asptr(result0, filterFS).fs == fs && asptr(result0, filterFS).mapFn == opt.Map
 //@   ensures exclude_matcher: opt != nil && result1 == nil ==> (asptr(result0, filterFS).excludeMatcher != nil) == (len(opt.ExcludePatterns) > 0)
@@ -991,6 +997,7 @@ package fsutil
 //@ effectdecl FollowedToRoot(reached bool)
 //@ func FollowLinks
 //@   property C18
+//@   effects GlobMatch GlobMatchRes EntryResolved FollowedToRoot
 //@   posteffect FollowedToRoot(result0 == nil) when result1 == nil
 //@   use pathless_irrefl pathless_trans pathless_total pathless_asym
 //@   opaque specPathLess specInside
@@ -1022,10 +1029,22 @@ package fsutil
 //@   property C18
 //@   modifies array os.DirEntry
 
+// A wildcard in the last component of a followed path stands for every entry of the directory
+// whose name matches it: each entry read is offered to the pattern (none is set aside by name),
+// and each one that matches is resolved as a path of its own, without wildcards.
+//@ effectdecl EntryResolved(p string)
 //@ func symlinkResolver.readSymlink
 //@   property C18
 //@   requires r != nil
 //@   modifies array os.DirEntry, array string
+//@   effects GlobMatch GlobMatchRes EntryResolved
+//@   posteffect EntryResolved(p) when !allowWildcard && result1 == nil
+//@   ensures literal_path_matches_nothing: !allowWildcard ==> cnt(GlobMatch) == old(cnt(GlobMatch)) && cnt(GlobMatchRes) == old(cnt(GlobMatchRes)) && arg(GlobMatch, 0) == old(arg(GlobMatch, 0)) && arg(GlobMatch, 1) == old(arg(GlobMatch, 1)) && when(GlobMatch) == old(when(GlobMatch)) && arg(GlobMatchRes, 0) == old(arg(GlobMatchRes, 0))
+//@   loop 0 invariant every_entry_offered: cnt(GlobMatch) == old(cnt(GlobMatch)) + rangeindex + 1 && cnt(GlobMatchRes) == old(cnt(GlobMatchRes)) + rangeindex + 1
+//@   loop 0 invariant matching_entry_resolved: rangeindex >= 0 && arg(GlobMatchRes, 0) ==> cnt(EntryResolved) > old(cnt(EntryResolved)) && when(EntryResolved) > when(GlobMatch)
+//@   at call path/filepath.Match: offered_by_name: arg0 == filepath.Base(p) && arg1 == f.Name()
+//@   at call symlinkResolver.readSymlink: resolved_as_a_path_of_its_own: arg1 == filepath.Join(filepath.Dir(p), f.Name()) && !arg2 && arg(GlobMatchRes, 0) && arg(GlobMatch, 1) == f.Name()
+//@   loop 0 invariant bound: rangeindex < len(fis)
 
 // Termination measure of the resolver as a contract: a path that resolves to
 // link targets is added to the (finite) set of resolved paths as a NEW element
@@ -1035,6 +1054,7 @@ package fsutil
 //@ func symlinkResolver.append
 //@   property C18
 //@   requires r != nil && r.resolved != nil
+//@   effects GlobMatch GlobMatchRes EntryResolved
 //@   modifies r.resolved[*], array os.DirEntry, array string
 //@   loop 0 invariant unchanged: (forall k string :: haskey(r.resolved, k) == old(haskey(r.resolved, k))) && len(r.resolved) == old(len(r.resolved))
 //@   loop 1 invariant grown: (forall k string :: old(haskey(r.resolved, k)) ==> haskey(r.resolved, k)) && len(r.resolved) > old(len(r.resolved)) && haskey(r.resolved, current)
